@@ -8,7 +8,8 @@ import gen
 import msggen
 
 THEOREMS = ["decodeStream_acct", "C09.c09_stream_step", "C09.c09_stream_end", "decodeStream_ok", "specStream_inner", "stream_run",
-            "MsgWF.c09_stream", "MsgWF.c09_stream_cons", "MsgWF.c01_command", "MsgWF.c01_response"]
+            "MsgWF.c09_stream", "MsgWF.c09_stream_cons", "MsgWF.c01_command", "MsgWF.c01_response",
+            "decodeStream_sound", "AcceptIff.stream_accept_iff"]
 
 
 def run(ctx, replay_case):
@@ -131,7 +132,7 @@ def run(ctx, replay_case):
     })
 
 
-PROP = {"targets": ["TpmProofs.Props.C09"], "module": "TpmProofs.Props.C09", "theorems": THEOREMS, "run": run,
+PROP = {"targets": ["TpmProofs.Props.AcceptIff"], "module": "TpmProofs.Props.AcceptIff", "theorems": THEOREMS, "run": run,
         "assumptions": ["the pairing theorem (MsgWF.c09_stream) is over well-formed exchanges (`specStream`, TpmModel/MsgSpec.lean); for streams with a "
                         "malformed message the equality with per-message decodes is monitored + tied by correspondence, the stream loop's "
                         "step and termination behaviour are theorems"]}
